@@ -34,7 +34,10 @@ def n_runs(tier):
 def generate(rng, tier, index):
     wp = world.gen_world_plan(rng, big=(tier == "thorough"), giant=0.008)
     n = rng.choice(wp["images"])["lines"]
-    plan = {"world": wp, "rpc": common.pick_rpc(rng, n)}
+    plan = {"world": wp, "rpc": common.pick_rpc(rng, n),
+            # the property holds for any options: a third of the runs read through an index cache
+            # that the same open / an earlier open created
+            "cache_mode": rng.choice(["none", "none", "create-then-default"])}
     if rng.random() < 0.4:
         # a second product with the same file names and geometry but other samples, in the same
         # interpreter: elsewhere (other directory / other store) or rewritten in place
@@ -56,6 +59,10 @@ def execute(plan):
     worlds = [w]
     try:
         _check_world(w, plan["rpc"], violations, keys, "")
+        if plan.get("cache_mode") == "create-then-default" and not violations:
+            _check_world(w, plan["rpc"], violations, keys, "creating-open:", create_cache=True)
+            if not violations:
+                _check_world(w, plan["rpc"], violations, keys, "cached-open:", use_cache=None)
         sec = plan.get("second")
         if sec and not violations:
             wp2 = dict(plan["world"], data_seed=sec["data_seed"])
@@ -74,11 +81,12 @@ def execute(plan):
             x.destroy()
 
 
-def _check_world(w, r, violations, keys, tag):
+def _check_world(w, r, violations, keys, tag, use_cache=False, create_cache=None):
     prod = w.product
     if True:
         try:
-            tree = w.open(use_cache=False, records_per_chunk=r)
+            tree = w.open(use_cache=None if create_cache else use_cache, create_cache=create_cache,
+                          records_per_chunk=r)
         except Exception as e:  # noqa: BLE001
             violations.append(Violation(ID, "open-raised", tag + type(e).__name__,
                                         {"error": exc_text(e), "rpc": r}))
